@@ -1,6 +1,6 @@
 (* C18: every public construction path validates; what it accepts cannot make
    socket setup panic. *)
-From GD Require Import Base.Prelude Model.Net Model.Settings Proofs.Msafe.
+From GD Require Import Base.Prelude Model.StrOps Model.Net Model.Settings Proofs.Msafe.
 From Coq Require Import ZifyBool ZifyNat ZifyN.
 
 Lemma ts_new_spec : forall r w c n,
